@@ -19,6 +19,18 @@ CHECKS = {
  'C10': dict(cat='proof', tech='Lean 4 round-trip theorems for the content codec primitives, block runs and simple records + byte-identical re-serialisation by the Lean model of every content file the binary writes in generated histories',
    text='Theorems: getb32/getb64/getStr/getLe32/getRaw invert their writers for every value (varint length boundaries included, no bound), hash lists and block runs of file records and the simple records are read back exactly. Tie: for every content file left by every command of seeded histories, Lean parse -> Lean serialise is byte-identical to the file (so the Lean record model IS the format), all copies are identical, the decoded files/links/per-stripe info equal `list -l`/`status -G -l`, and test-rewrite reproduces the bytes.',
    note='Whole-file round trip (all record kinds composed) is established by the byte-identical correspondence on sampled files, not by a single theorem; in-memory state before a save is not observable, so a save that drops state consistently is only caught through C06-style semantic oracles.', ref='6 C10'),
+ 'C01': dict(cat='proof', tech='Lean 4 theorems (first-accepted search over parity combinations with hash acceptance is complete and sound; C03 uniqueness) + E2E recovery sweep of the real binary against the harness snapshot',
+   text='Theorems (stripe level, any number of blocks/parities): if some enumerated combination consists of intact parities (always the case when failed data + damaged parity <= N) fix accepts a reconstruction and every failed block equals its synced bytes (fix_stripe_recovers), and anything accepted has the recorded bytes in every hashed block (accepted_is_recorded), under the explicit HashSep hypothesis. Tie: generated arrays (1-6 parities, z-mode, hash sizes, split parity, fragmented histories) damaged by <= N lost/overwritten devices, per-stripe <= N silent block changes, deleted/truncated files, lost links and dirs, single surviving content copy; fix must restore bytes, time-stamps, links, dirs, report nothing unrecoverable and check must pass.',
+   note='Partial: whole-array recovery, time-stamp restoration, links/dirs and POSIX effects are established by the E2E sweep only; the theorems cover the per-stripe search logic with abstract decoder and hash.', ref='6 C01'),
+ 'C04': dict(cat='proof', tech='Lean 4 stripe-model theorems (detect_data, detect_parity, no_false_alarm, bad_marks_exact) + E2E detection sweep comparing the exact sets of error tags and bad marks with the damaged blocks',
+   text='Theorems: in a synced stripe a changed data block is reported at its own disk/position (under HashSep) and only changed blocks are, a changed parity level is reported iff it differs from gen(data), an undamaged stripe raises nothing, and the stripe is marked bad iff some block really changed. Tie: for generated synced arrays (incl. hash migration in progress, reduced hash sizes) the undamaged twin must be silent and unmarked; for damage sets (one block, a few, per-stripe <= N mixed data/parity; bit/byte/block/zero shapes, time-stamp kept) the SETS of error:<pos>:<disk>:<file> and parity_error:<pos>:<level> tags of check -a, check and scrub and the stripes marked bad must equal the damaged ones; a second pass and a restore + scrub -p bad pass must be consistent.',
+   note='Partial: scrub does not reconstruct data, so in a stripe that has a damaged data block AND a damaged parity block it names the data error only (stripe still marked bad) - the check expects parity levels only for stripes with intact data; plan coverage is C15.', ref='6 C04'),
+ 'C05': dict(cat='proof', tech='Lean 4 theorems (accepted reconstructions have the recorded bytes in hashed blocks; CHG verdict sound under the past-hash condition; machine-checked counter-examples for the two ways it fails) + E2E fix sweep with a version-store oracle and filters',
+   text='Theorems: accepted_is_recorded (any damage), fix_never_wrong_partial / zero_past_sound / lost_never_trusted for pending blocks, and refutations c05_counter_skip, c05_counter_length of the unrestricted statement (both replayed on the binary on every run). Tie: histories with partial/killed/pre-hash syncs, stripes skipped because a file moved/changed during sync, copy-detected files, then damage on any number of devices and fix with -d/-f/-m filters; every selected recorded file must hold the recorded bytes or be reported unrecoverable with failing exit; nothing reported recovered with other bytes; unselected and unknown files untouched.',
+   note='Known finding C05-length (KNOWN_FINDINGS.txt) is reported as KNOWN-FINDING, three related defects were repaired by fix: commits (C05-skip, C05-hashsize, C05-search-abort). Detectable damage only (blocks with a recorded hash, missing/short files).', ref='6 C05, 7'),
+ 'C08': dict(cat='fault_enumeration', tech='LD_PRELOAD fault injection (EIO/ENOSPC at the k-th pread/pwrite of a data or parity file) during sync and scrub at several io-cache depths, stripe state read back through the Lean content decoder; Lean bookkeeping model with theorems for reads and a machine-checked counter-example for asynchronous parity writes',
+   text='Every injected fault that fired is judged: non-zero exit, the stripe of the failing offset is not (all BLK and not bad) in the content written afterwards, and the follow-up sync / fix -e + scrub -p bad re-establishes the C06 invariant. Lean: io_error_never_protects_reads, other_stripes_unaffected, async_writer_sound_when_collected (specification of a sound writer path) and c08_counter_write (the pinned behaviour).',
+   note='Known finding C08-write (parity pwrite errors are not attributed to their stripe) is reported as KNOWN-FINDING; repairing it needs failing positions to travel back through the writer queue (io.c/io.h/sync.c), judged not small enough for a fix: commit.', ref='6 C08, 7'),
 }
 
 NOT_YET = {}
